@@ -74,6 +74,50 @@ async function do_query_table(req) {
             output_aliases_input: aliased, output_records_shared: shared, rows_replaced: rows_replaced};
 }
 
+const TAIL_POOL = ['a', 'b', '', 'ab', 'a b'];
+
+function tail_record(nr, width) {
+    let r = [String(nr)];
+    for (let j = 0; j < width - 1; j++) r.push(TAIL_POOL[(nr * (j + 3)) % TAIL_POOL.length]);
+    return r;
+}
+
+class BudgetExceeded extends Error {}
+
+class EndlessIterator extends rbql.TableIterator {
+    // a finite prefix followed by an endless deterministic tail; pulling more than `budget` records throws
+    constructor(prefix, width, budget) {
+        super(prefix, null, true);
+        this.width = width;
+        this.budget = budget;
+        this.pulled = 0;
+    }
+    async get_record() {
+        if (this.stopped) return null;
+        this.pulled += 1;
+        if (this.pulled > this.budget) throw new BudgetExceeded('budget');
+        this.nr += 1;
+        return this.nr <= this.table.length ? this.table[this.nr - 1] : tail_record(this.nr, this.width);
+    }
+}
+
+async function do_query_endless(req) {
+    let out = [], warnings = [];
+    let it = new EndlessIterator(req.A, req.width, req.budget);
+    let writer = new rbql.TableWriter(out);
+    let finishes = 0;
+    let orig_finish = writer.finish.bind(writer);
+    writer.finish = async function() { finishes += 1; return await orig_finish(); };
+    let reg = (req.B === undefined || req.B === null) ? null : new rbql.SingleTableRegistry(req.B, null, true);
+    let error = null, exceeded = false;
+    try {
+        await rbql.query(req.query, it, writer, warnings, reg, '');
+    } catch (e) {
+        if (e instanceof BudgetExceeded) exceeded = true; else error = err_info(e);
+    }
+    return {out: clean(out), error: error, exceeded: exceeded, pulled: it.pulled, finishes: finishes};
+}
+
 function bufs_from(hex, cuts) {
     let data = Buffer.from(hex, 'hex');
     let pieces = [];
@@ -222,6 +266,7 @@ async function handle(req) {
     switch (req.cmd) {
         case 'ping': return {pong: true, node: process.version, repo: REPO};
         case 'query_table': return await do_query_table(req);
+        case 'query_endless': return await do_query_endless(req);
         case 'query_batch': {
             let results = [];
             for (let r of req.items) results.push(await do_query_table(r));
